@@ -221,7 +221,8 @@ class Harness:
             self.p.stdin.flush()
             # generous wall-clock watchdog (a batch normally answers within seconds): its firing is *inconclusive*
             import select
-            if not select.select([self.p.stdout], [], [], CALL_TIMEOUT)[0]:
+            limit = getattr(self, "call_timeout", None) or CALL_TIMEOUT
+            if not select.select([self.p.stdout], [], [], limit)[0]:
                 self.p.kill()
                 self.p.wait()
                 self.p = None
@@ -230,7 +231,7 @@ class Harness:
                     open(flag, "w").close()
                 except OSError:
                     pass
-                raise HarnessDied("watchdog", op, "no reply within %d s (wall-clock watchdog; a hang in the library or an overloaded machine)" % CALL_TIMEOUT)
+                raise HarnessDied("watchdog", op, "no reply within %d s (wall-clock watchdog; a hang in the library or an overloaded machine)" % limit)
             line = self.p.stdout.readline()
             if not line:
                 raise BrokenPipeError
@@ -368,10 +369,11 @@ def _jsonable(v):
 
 def finish(res, level="exploration", min_distinct=2):
     """Print verdict lines, write evidence and replay files, return exit code."""
-    try:
-        os.unlink(os.path.join(BUILD, "tmp", "watchdog-" + RUN_ID))
-    except OSError:
-        pass
+    for _f in ("watchdog-", "hang-confirmed-"):
+        try:
+            os.unlink(os.path.join(BUILD, "tmp", _f + RUN_ID))
+        except OSError:
+            pass
     os.makedirs(EVIDENCE, exist_ok=True)
     os.makedirs(REPLAY, exist_ok=True)
     known = load_findings()
